@@ -59,14 +59,14 @@ def setup(ctx):
     _rig = G.Rig()
 
 
-def _case(rng, i, home, size, feats=None, vary=True, events=False):
-    g = G.ProgramGen(rng, home, size, feats, events)
+def _case(rng, i, home, size, feats=None, vary=True, events=False, bare=False):
+    g = G.ProgramGen(rng, home, size, feats, events, bare)
     prog = g.program()
     return {'home': home, 'prog': prog, 'style': rng.randint(0, 2 ** 30), 'vary': vary,
             'via_model': rng.random() < 0.15, 'events': events, 'gstats': dict(g.stats)}
 
 
-FOCUS = [['assign'], ['assign', 'array'], ['assign', 'if'], ['assign', 'while', 'break', 'continue'], ['create', 'delete'],
+FOCUS = [['assign'], ['assign', 'array'], ['array', 'assign'], ['assign', 'if'], ['assign', 'while', 'break', 'continue'], ['create', 'delete'],
          ['create', 'relate', 'unrelate'], ['select_from', 'select_from_where'],
          ['select_from', 'create', 'select_rel', 'select_rel_where'], ['select_from', 'for', 'assign'],
          ['invoke'], ['assign_call'], ['create', 'select_from', 'assign_inst'], ['create', 'attr', 'self_attr'],
@@ -77,13 +77,14 @@ EVENT_FOCUS = [['gen_evt'], ['create_evt', 'gen_pre'], ['create', 'gen_evt', 'cr
                ['assign', 'create_evt', 'if', 'gen_pre']]
 
 
-def generate(ctx, n_quick=1350, multi=True):
+def generate(ctx, n_quick=1350, multi=True, bare=False):
     rng = ctx.rng.fork('focus')
     per = ctx.pick(3, 30)
     for fi, feats in enumerate(FOCUS):
         for home in G.HOMES:
             for j in range(per):
-                yield _case(rng.fork(fi, home, j), 0, home, rng.fork(fi, home, j, 's').randint(2, 6), set(feats))
+                yield _case(rng.fork(fi, home, j), 0, home, rng.fork(fi, home, j, 's').randint(2, 6), set(feats),
+                            bare=bare and 'array' in feats)
     for fi, feats in enumerate(EVENT_FOCUS):
         for home in G.HOMES:
             for j in range(per):
@@ -105,7 +106,7 @@ def generate(ctx, n_quick=1350, multi=True):
         r = rng.fork(i)
         # every fifth body may also hold event statements
         yield _case(r, i, G.HOMES[i % len(G.HOMES)], r.randint(1, maxsize), None, vary=r.random() < 0.85,
-                    events=(i % 5 == 4))
+                    events=(i % 5 == 4), bare=bare and (i % 3 == 0))
 
 
 def text_of(case):
